@@ -124,7 +124,9 @@ func (w *World) sweepTargets() []*FuncInfo {
 		}
 		eff := w.effectsOf(fi.Obj)
 		ct := w.Specs.ByKey[fi.Key]
-		if (eff != nil && len(eff.Locks) > 0 && w.directLockOps(fi)) || hasTouches(ct) {
+		// ... and every function whose contract is scoped to C09 (its C09-labelled clauses are kept by the sweep view),
+		// whether or not it touches a lock itself
+		if (eff != nil && len(eff.Locks) > 0 && w.directLockOps(fi)) || hasTouches(ct) || (ct != nil && ct.Flags["trusted"] == "" && ct.HasProp("C09")) {
 			out = append(out, fi)
 		}
 	}
